@@ -336,5 +336,58 @@ pub fn c14(h: &mut H) {
             }
         }
     }
+    // caller-supplied bases that are NOT quadratic residues (N - a_i; `Bases` is a public tuple struct) with odd
+    // attributes: issuance, unblinding and re-issuance still yield verifying signatures (several runs: a slip in
+    // the exponent arithmetic shows for about every second e only)
+    {
+        let n = 3usize;
+        for variant in 0..2 {
+            let mut nb = k.bases.clone();
+            nb[1] = Integer::from(&k.n_mod - &nb[1]);
+            if variant == 1 { nb[0] = Integer::from(&k.n_mod - &nb[0]); }
+            let kn = Keys { pk: k.pk.clone(), sk: k.sk.clone(), n_mod: k.n_mod.clone(), p: k.p.clone(), q: k.q.clone(), bases: nb.clone(), tape: vec![] };
+            let bases = nb[..n].to_vec();
+            let reps = if h.thorough { 8 } else { 4 };
+            for rep in 0..reps {
+                let hidden: Vec<usize> = [vec![0usize], vec![1], vec![0, 2], vec![1, 2]][rep % 4].clone();
+                let mut msgs = attrs(h, n);
+                for m in msgs.iter_mut() { *m |= Integer::from(1); }
+                h.stat("C14.nonresidue_bases");
+                let iss = match holder(h, &kn, n, &hidden, None, msgs) {
+                    Some(i) => i,
+                    None => { h.expect(false, "C14.holder", "commitment / generate_proof panicked on valid input (non-residue base)", &[h.last()]); continue; }
+                };
+                let gid = h.last();
+                let cv = com_value(&iss.c);
+                let v = zkverify(h, &kn.pk, &bases, &iss.zk, &cv, None, None, &hidden);
+                h.expect(v.is_true(), "C14.verify_proof", "verify_proof(generate_proof(..)) != true over a non-residue base", &[gid, h.last()]);
+                let revealed: Vec<Integer> = iss.revealed_idx.iter().map(|&i| iss.msgs[i].clone()).collect();
+                let bs = blindsign(h, &kn, &bases, &iss.zk, &revealed, &iss.c, None, None, &hidden, &iss.revealed_idx);
+                let bid = h.last();
+                let bsig = match bs.ok() { Some(b) => b.clone(), None => { h.expect(false, "C14.blind_sign", "blind_sign refused an honest request over a non-residue base", &[gid, bid]); continue; } };
+                let (sig, _) = call(h, "cl.unblind", vec![bsig.clone(), iss.c.clone()], vec![]);
+                if let Some(sig) = sig.ok().cloned() {
+                    let v = verifym(h, &kn.pk, &bases, &sig, &iss.msgs);
+                    h.expect(v.is_true(), "C14.issued_verifies_nonresidue", "unblinded signature over a caller-supplied non-residue base does not verify on the full attribute vector", &[bid, h.last()]);
+                }
+                // re-issuance: the first revealed attribute changes from odd to another odd value
+                if !iss.revealed_idx.is_empty() {
+                    let mut newrev = revealed.clone();
+                    newrev[0] = Integer::from(hash_attr(h) | Integer::from(1));
+                    let (ub, _) = call(h, "cl.update", vec![bsig.clone(), ivs(&newrev), iss.c.clone(), kn.sk.clone(), kn.pk.clone(), ivs(&bases), uv(&iss.revealed_idx)], vec![]);
+                    let uid = h.last();
+                    if let Some(ub) = ub.ok().cloned() {
+                        let (s2, _) = call(h, "cl.unblind", vec![ub, iss.c.clone()], vec![]);
+                        if let Some(s2) = s2.ok().cloned() {
+                            let mut updated = iss.msgs.clone();
+                            updated[iss.revealed_idx[0]] = newrev[0].clone();
+                            let v = verifym(h, &kn.pk, &bases, &s2, &updated);
+                            h.expect(v.is_true(), "C14.update_new_nonresidue", "re-issued signature over a non-residue base does not verify on the updated vector", &[uid, h.last()]);
+                        }
+                    }
+                }
+            }
+        }
+    }
     let _ = json!(0);
 }
